@@ -1342,8 +1342,11 @@ func main() {
 		runScenario(c, scenario{kind: "fault-multi", senders: r.Range(2, 12), perSender: r.Range(10, 40), gomax: gomaxes[i%4], schedule: cutPoints(r, i)}, r, fmt.Sprint("fault-multi#", i))
 	})
 	// queue mode with SendAndClear() called concurrently with the background drain
-	c.Cases("queue-sendclear", scale(6, 100), func(i int, r *vlib.Rand) {
-		runScenario(c, scenario{kind: "queue-sendclear", senders: r.Range(1, 6), perSender: r.Range(20, 100), gomax: gomaxes[(i+3)%4], useQueue: true, queueSize: 0, bg: true, sendClear: true}, r, fmt.Sprint("queue-sendclear#", i))
+	// (round 7: 6 → 36 scenarios of up to 400 sends per sender; the window in which the drain
+	// holds a request it has looked at but not yet taken, while SendAndClear empties the queue,
+	// is a few instructions wide)
+	c.Cases("queue-sendclear", scale(36, 400), func(i int, r *vlib.Rand) {
+		runScenario(c, scenario{kind: "queue-sendclear", senders: r.Range(1, 6), perSender: r.Range(40, 400), gomax: gomaxes[(i+3)%4], useQueue: true, queueSize: 0, bg: true, sendClear: true}, r, fmt.Sprint("queue-sendclear#", i))
 	})
 	// a client that has never been connected (collector down at start-up): flushing must fail
 	// or do nothing, not crash the process; once the collector is up the packs get through
